@@ -23,7 +23,13 @@ func MatchLocal(eng *Engine) (bind inputrc.Bind, command func(), prefix bool) {
 		return bind, command, prefix
 	}
 
+	// A bind that was matched by prefix in the main keymap is not one of
+	// ours: it must not be used (and run) if we fail to match our keys.
+	eng.prefixedMain, eng.prefixed = eng.prefixed, inputrc.Bind{}
+
 	bind, prefix, read, matched := eng.dispatchKeys(binds)
+
+	eng.prefixed = eng.prefixedMain
 
 	if !bind.Macro {
 		command = eng.commands[bind.Action]
